@@ -5,6 +5,7 @@ package checks
 import (
 	"fmt"
 	"math/big"
+	"sync"
 
 	"github.com/onflow/crypto"
 
@@ -27,148 +28,158 @@ func C17(run *mon.Run) {
 	h2 := crypto.NewExpandMsgXOFKMAC128("spock-other-tag")
 	idPk := crypto.IdentityBLSPublicKey()
 	inf := ref.EncodeG1(ref.E1.Infinity())
+	var wg sync.WaitGroup
+	sem := make(chan struct{}, 16)
 	for pi := 0; pi < nPairs; pi++ {
-		k1 := randScalar(r)
-		var k2 *big.Int
-		pairKind := [...]string{"distinct", "equal", "negated", "identity-left", "identity-right", "distinct"}[pi%6]
-		switch pairKind {
-		case "equal":
-			k2 = new(big.Int).Set(k1)
-		case "negated":
-			k2 = ref.Fr.Neg(k1)
-		default:
-			k2 = randScalar(r)
-		}
-		sk1v, sk2v := skFromInt(k1), skFromInt(k2)
-		pk1, pk2 := sk1v.PublicKey(), sk2v.PublicKey()
-		kk1, kk2 := k1, k2
-		switch pairKind {
-		case "identity-left":
-			pk1, kk1 = idPk, big.NewInt(0)
-		case "identity-right":
-			pk2, kk2 = idPk, big.NewInt(0)
-		}
-		data := mon.RandBytes(r, 1+r.IntN(200))
-		data2 := append(append([]byte{}, data...), 1)
-		H, err := hashPoint(data, h, "kmac:spock-tag")
-		if err != nil {
-			run.Violate("C17:hash-point", err.Error(), nil)
-			continue
-		}
-		// SPOCKProve == Sign
-		pr1, e1 := crypto.SPOCKProve(sk1v, data, h)
-		pr2, e2 := crypto.SPOCKProve(sk2v, data, h)
-		s1, _ := sk1v.Sign(data, h)
-		run.Eval(3)
-		if e1 != nil || e2 != nil || string(pr1) != string(s1) || string(pr1) != string(ref.EncodeG1(ref.E1.Mul(H, k1))) {
-			run.Violate("C17:prove-mismatch", fmt.Sprintf("SPOCKProve differs from Sign/reference (%v,%v)", e1, e2), map[string]any{"k1": k1.String()})
-		}
-		// SPOCKVerifyAgainstData == Verify
-		for _, cnd := range [][]byte{pr1, pr2, inf, pr1[:47]} {
-			a, ea := crypto.SPOCKVerifyAgainstData(sk1v.PublicKey(), cnd, data, h)
-			b, eb := sk1v.PublicKey().Verify(cnd, data, h)
-			run.Eval(2)
-			if a != b || (ea == nil) != (eb == nil) {
-				run.Violate("C17:against-data-mismatch", fmt.Sprintf("SPOCKVerifyAgainstData (%v,%v) vs Verify (%v,%v)", a, ea, b, eb), map[string]any{"proof": mon.Hex(cnd)})
+		wg.Add(1)
+		sem <- struct{}{}
+		go func(pi int) {
+			defer wg.Done()
+			defer func() { <-sem }()
+			r := run.Rand(fmt.Sprintf("pair-%d", pi))
+			k1 := randScalar(r)
+			var k2 *big.Int
+			pairKind := [...]string{"distinct", "equal", "negated", "identity-left", "identity-right", "distinct"}[pi%6]
+			switch pairKind {
+			case "equal":
+				k2 = new(big.Int).Set(k1)
+			case "negated":
+				k2 = ref.Fr.Neg(k1)
+			default:
+				k2 = randScalar(r)
 			}
-		}
-		P1 := ref.E1.Mul(H, k1)
-		P2 := ref.E1.Mul(H, k2)
-		c := randScalar(r)
-		otherData1, _ := sk1v.Sign(data2, h)
-		otherTag1, _ := sk1v.Sign(data, h2)
-		T := tor3()
-		cases := []spockCase{
-			{"honest", ref.EncodeG1(P1), ref.EncodeG1(P2)},
-			{"other-data-left", otherData1, ref.EncodeG1(P2)},
-			{"other-tag-left", otherTag1, ref.EncodeG1(P2)},
-			{"both-scaled", ref.EncodeG1(ref.E1.Mul(P1, c)), ref.EncodeG1(ref.E1.Mul(P2, c))},
-			{"left-scaled", ref.EncodeG1(ref.E1.Mul(P1, c)), ref.EncodeG1(P2)},
-			{"right-scaled", ref.EncodeG1(P1), ref.EncodeG1(ref.E1.Mul(P2, c))},
-			{"left-plus-T3", ref.EncodeG1(ref.E1.Add(P1, T)), ref.EncodeG1(P2)},
-			{"right-plus-T3", ref.EncodeG1(P1), ref.EncodeG1(ref.E1.Add(P2, T))},
-			{"both-plus-T3", ref.EncodeG1(ref.E1.Add(P1, T)), ref.EncodeG1(ref.E1.Add(P2, T))},
-			{"both-identity", inf, inf},
-			{"left-identity", inf, ref.EncodeG1(P2)},
-			{"right-identity", ref.EncodeG1(P1), inf},
-			{"swapped-proofs", ref.EncodeG1(P2), ref.EncodeG1(P1)},
-			{"left-neg", ref.EncodeG1(ref.E1.Neg(P1)), ref.EncodeG1(P2)},
-			{"both-neg", ref.EncodeG1(ref.E1.Neg(P1)), ref.EncodeG1(ref.E1.Neg(P2))},
-		}
-		// malformed / lengths / bit flips on one side
-		base1, base2 := ref.EncodeG1(P1), ref.EncodeG1(P2)
-		for _, l := range []int{0, 1, 47, 49, 96, 100} {
-			b := make([]byte, l)
-			copy(b, base1)
-			cases = append(cases, spockCase{"left-length", b, base2}, spockCase{"right-length", base1, b})
-		}
-		cases = append(cases, spockCase{"left-nil", nil, base2}, spockCase{"right-nil", base1, nil})
-		nflip := 24
-		if pi < run.Pick(2, 10) {
-			nflip = 384
-		}
-		for j := 0; j < nflip; j++ {
-			bit := j
-			if nflip != 384 {
-				bit = r.IntN(384)
-				if j < 4 {
-					bit = j
+			sk1v, sk2v := skFromInt(k1), skFromInt(k2)
+			pk1, pk2 := sk1v.PublicKey(), sk2v.PublicKey()
+			kk1, kk2 := k1, k2
+			switch pairKind {
+			case "identity-left":
+				pk1, kk1 = idPk, big.NewInt(0)
+			case "identity-right":
+				pk2, kk2 = idPk, big.NewInt(0)
+			}
+			data := mon.RandBytes(r, 1+r.IntN(200))
+			data2 := append(append([]byte{}, data...), 1)
+			H, err := hashPoint(data, h, "kmac:spock-tag")
+			if err != nil {
+				run.Violate("C17:hash-point", err.Error(), nil)
+				return
+			}
+			// SPOCKProve == Sign
+			pr1, e1 := crypto.SPOCKProve(sk1v, data, h)
+			pr2, e2 := crypto.SPOCKProve(sk2v, data, h)
+			s1, _ := sk1v.Sign(data, h)
+			run.Eval(3)
+			if e1 != nil || e2 != nil || string(pr1) != string(s1) || string(pr1) != string(ref.EncodeG1(ref.E1.Mul(H, k1))) {
+				run.Violate("C17:prove-mismatch", fmt.Sprintf("SPOCKProve differs from Sign/reference (%v,%v)", e1, e2), map[string]any{"k1": k1.String()})
+			}
+			// SPOCKVerifyAgainstData == Verify
+			for _, cnd := range [][]byte{pr1, pr2, inf, pr1[:47]} {
+				a, ea := crypto.SPOCKVerifyAgainstData(sk1v.PublicKey(), cnd, data, h)
+				b, eb := sk1v.PublicKey().Verify(cnd, data, h)
+				run.Eval(2)
+				if a != b || (ea == nil) != (eb == nil) {
+					run.Violate("C17:against-data-mismatch", fmt.Sprintf("SPOCKVerifyAgainstData (%v,%v) vs Verify (%v,%v)", a, ea, b, eb), map[string]any{"proof": mon.Hex(cnd)})
 				}
 			}
-			b := append([]byte{}, base1...)
-			b[bit/8] ^= 0x80 >> (bit % 8)
-			if j%2 == 0 {
-				cases = append(cases, spockCase{"left-bitflip", b, base2})
-			} else {
-				b2 := append([]byte{}, base2...)
-				b2[bit/8] ^= 0x80 >> (bit % 8)
-				cases = append(cases, spockCase{"right-bitflip", base1, b2})
+			P1 := ref.E1.Mul(H, k1)
+			P2 := ref.E1.Mul(H, k2)
+			c := randScalar(r)
+			otherData1, _ := sk1v.Sign(data2, h)
+			otherTag1, _ := sk1v.Sign(data, h2)
+			T := tor3()
+			cases := []spockCase{
+				{"honest", ref.EncodeG1(P1), ref.EncodeG1(P2)},
+				{"other-data-left", otherData1, ref.EncodeG1(P2)},
+				{"other-tag-left", otherTag1, ref.EncodeG1(P2)},
+				{"both-scaled", ref.EncodeG1(ref.E1.Mul(P1, c)), ref.EncodeG1(ref.E1.Mul(P2, c))},
+				{"left-scaled", ref.EncodeG1(ref.E1.Mul(P1, c)), ref.EncodeG1(P2)},
+				{"right-scaled", ref.EncodeG1(P1), ref.EncodeG1(ref.E1.Mul(P2, c))},
+				{"left-plus-T3", ref.EncodeG1(ref.E1.Add(P1, T)), ref.EncodeG1(P2)},
+				{"right-plus-T3", ref.EncodeG1(P1), ref.EncodeG1(ref.E1.Add(P2, T))},
+				{"both-plus-T3", ref.EncodeG1(ref.E1.Add(P1, T)), ref.EncodeG1(ref.E1.Add(P2, T))},
+				{"both-identity", inf, inf},
+				{"left-identity", inf, ref.EncodeG1(P2)},
+				{"right-identity", ref.EncodeG1(P1), inf},
+				{"swapped-proofs", ref.EncodeG1(P2), ref.EncodeG1(P1)},
+				{"left-neg", ref.EncodeG1(ref.E1.Neg(P1)), ref.EncodeG1(P2)},
+				{"both-neg", ref.EncodeG1(ref.E1.Neg(P1)), ref.EncodeG1(ref.E1.Neg(P2))},
 			}
-		}
-		for j := 0; j < 6; j++ {
-			g := make([]byte, 48)
-			g[0] = 0xC0
-			g[1+r.IntN(47)] = byte(1 + r.IntN(255))
-			cases = append(cases, spockCase{"left-infinity-garbage", g, base2})
-			cases = append(cases, spockCase{"random", mon.RandBytes(r, 48), mon.RandBytes(r, 48)})
-		}
-		for _, cs := range cases {
-			expect := false
-			if len(cs.p1) == 48 && len(cs.p2) == 48 {
-				q1, c1 := ref.DecodeG1(cs.p1)
-				q2, c2 := ref.DecodeG1(cs.p2)
-				if c1 == ref.DecOK && c2 == ref.DecOK && ref.InG1(q1) && ref.InG1(q2) && kk1.Sign() != 0 && kk2.Sign() != 0 {
-					expect = ref.E1.Equal(ref.E1.Mul(q1, kk2), ref.E1.Mul(q2, kk1))
+			// malformed / lengths / bit flips on one side
+			base1, base2 := ref.EncodeG1(P1), ref.EncodeG1(P2)
+			for _, l := range []int{0, 1, 47, 49, 96, 100} {
+				b := make([]byte, l)
+				copy(b, base1)
+				cases = append(cases, spockCase{"left-length", b, base2}, spockCase{"right-length", base1, b})
+			}
+			cases = append(cases, spockCase{"left-nil", nil, base2}, spockCase{"right-nil", base1, nil})
+			nflip := 24
+			if pi < run.Pick(2, 10) {
+				nflip = 384
+			}
+			for j := 0; j < nflip; j++ {
+				bit := j
+				if nflip != 384 {
+					bit = r.IntN(384)
+					if j < 4 {
+						bit = j
+					}
+				}
+				b := append([]byte{}, base1...)
+				b[bit/8] ^= 0x80 >> (bit % 8)
+				if j%2 == 0 {
+					cases = append(cases, spockCase{"left-bitflip", b, base2})
+				} else {
+					b2 := append([]byte{}, base2...)
+					b2[bit/8] ^= 0x80 >> (bit % 8)
+					cases = append(cases, spockCase{"right-bitflip", base1, b2})
 				}
 			}
-			for swap := 0; swap < 2; swap++ {
-				a1, b1, a2, b2 := pk1, cs.p1, pk2, cs.p2
-				if swap == 1 {
-					a1, b1, a2, b2 = pk2, cs.p2, pk1, cs.p1
-				}
-				var ok bool
-				var err error
-				rep := map[string]any{"pair": pairKind, "kind": cs.kind, "k1": kk1.String(), "k2": kk2.String(), "p1": mon.Hex(cs.p1), "p2": mon.Hex(cs.p2), "swapped": swap == 1}
-				if run.Guard("SPOCKVerify", rep, func() { ok, err = crypto.SPOCKVerify(a1, b1, a2, b2) }) {
-					continue
-				}
-				run.Eval(1)
-				run.Count("case."+cs.kind, 1)
-				if ok {
-					run.Count("true."+cs.kind, 1)
-				}
-				if err != nil {
-					run.Violate("C17:error:"+cs.kind, fmt.Sprintf("SPOCKVerify returned error %v", err), rep)
-				} else if ok != expect {
-					run.Violate(fmt.Sprintf("C17:verdict:%s:%s:expected-%v", pairKind, cs.kind, expect), fmt.Sprintf("SPOCKVerify = %v, reference predicate = %v (pair %s, proofs %s, swapped=%v)", ok, expect, pairKind, cs.kind, swap == 1), rep)
-				}
+			for j := 0; j < 6; j++ {
+				g := make([]byte, 48)
+				g[0] = 0xC0
+				g[1+r.IntN(47)] = byte(1 + r.IntN(255))
+				cases = append(cases, spockCase{"left-infinity-garbage", g, base2})
+				cases = append(cases, spockCase{"random", mon.RandBytes(r, 48), mon.RandBytes(r, 48)})
 			}
-			run.Shape(pairKind + "|" + cs.kind)
-		}
-		if pi < 2 {
-			run.Sample(map[string]any{"pair": pairKind, "cases": len(cases), "k1": k1.String()})
-		}
+			for _, cs := range cases {
+				expect := false
+				if len(cs.p1) == 48 && len(cs.p2) == 48 {
+					q1, c1 := ref.DecodeG1(cs.p1)
+					q2, c2 := ref.DecodeG1(cs.p2)
+					if c1 == ref.DecOK && c2 == ref.DecOK && ref.InG1(q1) && ref.InG1(q2) && kk1.Sign() != 0 && kk2.Sign() != 0 {
+						expect = ref.E1.Equal(ref.E1.Mul(q1, kk2), ref.E1.Mul(q2, kk1))
+					}
+				}
+				for swap := 0; swap < 2; swap++ {
+					a1, b1, a2, b2 := pk1, cs.p1, pk2, cs.p2
+					if swap == 1 {
+						a1, b1, a2, b2 = pk2, cs.p2, pk1, cs.p1
+					}
+					var ok bool
+					var err error
+					rep := map[string]any{"pair": pairKind, "kind": cs.kind, "k1": kk1.String(), "k2": kk2.String(), "p1": mon.Hex(cs.p1), "p2": mon.Hex(cs.p2), "swapped": swap == 1}
+					if run.Guard("SPOCKVerify", rep, func() { ok, err = crypto.SPOCKVerify(a1, b1, a2, b2) }) {
+						continue
+					}
+					run.Eval(1)
+					run.Count("case."+cs.kind, 1)
+					if ok {
+						run.Count("true."+cs.kind, 1)
+					}
+					if err != nil {
+						run.Violate("C17:error:"+cs.kind, fmt.Sprintf("SPOCKVerify returned error %v", err), rep)
+					} else if ok != expect {
+						run.Violate(fmt.Sprintf("C17:verdict:%s:%s:expected-%v", pairKind, cs.kind, expect), fmt.Sprintf("SPOCKVerify = %v, reference predicate = %v (pair %s, proofs %s, swapped=%v)", ok, expect, pairKind, cs.kind, swap == 1), rep)
+					}
+				}
+				run.Shape(pairKind + "|" + cs.kind)
+			}
+			if pi < 2 {
+				run.Sample(map[string]any{"pair": pairKind, "cases": len(cases), "k1": k1.String()})
+			}
+		}(pi)
 	}
+	wg.Wait()
 	// non-BLS keys
 	for _, alg := range []crypto.SigningAlgorithm{crypto.ECDSAP256, crypto.ECDSASecp256k1} {
 		sk, err := crypto.GeneratePrivateKey(alg, mon.RandBytes(r, 32))
